@@ -622,7 +622,12 @@ def run(ctx, replay_jobs=None, replay_glue=None):
                        "draw (piecewise constant between candidate break points); table-building glue: the real "
                        "_fill_lifting (TwoCompositeObjectBoundingPotentialEventHandler) and the insert loop of the "
                        "fixed-separations handler's send_out_state driven on stub handlers with exact numbers, "
-                       "recorded insert calls compared with the factor-derivative table and run through the model"
+                       "recorded insert calls compared with the factor-derivative table and run through the model; "
+                       "additionally the real send_out_state of real instances of the three handlers that call "
+                       "_fill_lifting (summed / cell bounding potential / composite-object cell veto), composite "
+                       "objects of 2-4 point masses, charge=None or a charge with exact zeros in every position (first, "
+                       "middle, last, two zeros): the inserted table must equal the table computed in Fractions from "
+                       "the stub potential's derivatives times the charges"
                        % nthm,
         "trusted_base": TRUSTED,
     }, ASSUME)
